@@ -193,9 +193,16 @@ func (ch validatorDeleteChange) dirtied() *common.Address {
 }
 
 func (ch validatorUpdateChange) revert(s *StateDB) {
+	// What the statistics count is the record stored now.  ch.newVal is a pointer: a caller using the
+	// in-place convention (write the stored record, then UpdateValidator(stored, copy)) may have changed
+	// that object after this entry was journalled, and reverting its later entry stored the copy instead.
+	counted := ch.newVal
+	if obj, ok := s.validatorObjects.Load(*ch.address); ok && obj != nil {
+		counted = obj.(*Validator)
+	}
 	s.setValidator(ch.oldVal)
-	if !ch.newVal.StakeEqual(ch.oldVal) {
-		s.decrValidatorsStat(ch.newVal)
+	if !counted.StakeEqual(ch.oldVal) {
+		s.decrValidatorsStat(counted)
 		s.incrValidatorsStat(ch.oldVal)
 	}
 }
